@@ -142,7 +142,7 @@ func (vc *FnVC) globalAddr(g *ssa.Global) *Val {
 		n := "gref!" + sanitize(g.Pkg.Pkg.Path()+"."+g.Name())
 		if !vc.declSet[n] {
 			vc.declare(n, "Int")
-			vc.fact(sx("<", n, "0"))
+			vc.fact(smtAnd(sx("<", n, "0"), sx("=", sx("ref.root", n), n)))
 		}
 		return &Val{T: g.Type(), S: n}
 	}
